@@ -84,6 +84,7 @@ type c20Spec struct {
 	pnames  []string // parameter names, in order of occurrence
 	types   []string // parameter types, in order of occurrence
 	strct   bool     // the alias belongs to a Kombination (struct literal alias) instead of a function
+	stmt    bool     // the alias is given by an alias statement (Der Alias "…" steht für die Funktion f.) after the function
 }
 
 func c20MkSpec(shape string, types ...string) c20Spec {
@@ -101,6 +102,10 @@ func c20MkSpec(shape string, types ...string) c20Spec {
 		s.pattern, s.pnames = []string{"foo", "<>", "bar"}, []string{"a"}
 	case "S3":
 		s.pattern, s.pnames = []string{"foo", "<>", "<>"}, []string{"a", "b"}
+	case "A0": // like S0a, declared through an alias statement
+		s.pattern, s.stmt = []string{"foo", "foo"}, true
+	case "A1": // like S1, declared through an alias statement
+		s.pattern, s.pnames, s.stmt = []string{"foo", "<>"}, []string{"a"}, true
 	case "K1": // Kombination with one field x and the alias "foo <x>"
 		s.pattern, s.pnames, s.strct = []string{"foo", "<>"}, []string{"x"}, true
 	case "K2":
@@ -238,6 +243,14 @@ func (s c20Spec) funcHeader(name string, public bool) string {
 		}
 		h += " mit den Parametern " + strings.Join(s.pnames, " und ") + " vom Typ " + strings.Join(sp, " und ") + ", gibt nichts zurück, macht:\n"
 	}
+	if s.stmt {
+		// the function gets a private spelling of its own, the explored alias comes from the alias statement
+		own := "nur " + name
+		for _, pn := range s.pnames {
+			own += " <" + pn + ">"
+		}
+		return h + "\tDie Zahl q ist 1.\nUnd kann so benutzt werden:\n\t\"" + own + "\"\nDer Alias \"" + s.aliasText() + "\" steht für die Funktion " + name + ".\n"
+	}
 	return h + "\tDie Zahl q ist 1.\nUnd kann so benutzt werden:\n\t\"" + s.aliasText() + "\"\n"
 }
 
@@ -271,16 +284,16 @@ func c20Pool(tier string, n int) []c20Spec {
 			return []c20Spec{S("S0a"), S("S0b"), S("S1", "Zahl"), S("S1b", "Hausnummer"), S("S1", "ZahlRef"), S("S1", "Text"), S("S1", "Buchstabe"), S("S1", "ZahlL"), S("S1", "Nummer"),
 				S("S1", "Paar1"), S("S1", "Paar2"), S("S1", "PaarDef"), S("S1", "Paar1L"), S("S1", "Paar2L"), S("S2", "Zahl"), S("S2", "Paar1"), S("S2", "Paar2"),
 				S("S3", "Zahl", "Text"), S("S3", "Text", "Zahl"), S("S3", "Hausnummer", "Text"), S("S3", "Paar1", "Zahl"), S("S3", "Paar2", "Zahl"),
-				S("K1", "Zahl"), S("K1", "Text"), S("K1", "Paar1"), S("K1", "Paar2"), S("K2", "Zahl"), S("K2", "Paar2")}
+				S("K1", "Zahl"), S("K1", "Text"), S("K1", "Paar1"), S("K1", "Paar2"), S("K2", "Zahl"), S("K2", "Paar2"), S("A0"), S("A1", "Zahl"), S("A1", "Hausnummer"), S("A1", "Paar2")}
 		default:
-			return []c20Spec{S("S0a"), S("S1", "Zahl"), S("S1b", "Hausnummer"), S("S1", "ZahlRef"), S("S1", "Buchstabe"), S("S1", "Paar1"), S("S1", "Paar2"), S("S1", "PaarDef"), S("S2", "Paar2"), S("K1", "Zahl"), S("K1", "Paar2")}
+			return []c20Spec{S("S0a"), S("S1", "Zahl"), S("S1b", "Hausnummer"), S("S1", "ZahlRef"), S("S1", "Buchstabe"), S("S1", "Paar1"), S("S1", "Paar2"), S("S1", "PaarDef"), S("S2", "Paar2"), S("K1", "Zahl"), S("K1", "Paar2"), S("A1", "Zahl"), S("A1", "Paar2")}
 		}
 	}
 	switch n {
 	case 2, 3:
-		return []c20Spec{S("S0a"), S("S1", "Zahl"), S("S1b", "Hausnummer"), S("S1", "ZahlRef"), S("S1", "Buchstabe"), S("S1", "Nummer"), S("S1", "Paar1"), S("S1", "Paar2"), S("S1", "PaarDef"), S("S2", "Paar2"), S("S3", "Zahl", "Text"), S("S3", "Hausnummer", "Text"), S("K1", "Zahl"), S("K1", "Paar2")}
+		return []c20Spec{S("S0a"), S("S1", "Zahl"), S("S1b", "Hausnummer"), S("S1", "ZahlRef"), S("S1", "Buchstabe"), S("S1", "Nummer"), S("S1", "Paar1"), S("S1", "Paar2"), S("S1", "PaarDef"), S("S2", "Paar2"), S("S3", "Zahl", "Text"), S("S3", "Hausnummer", "Text"), S("K1", "Zahl"), S("K1", "Paar2"), S("A0"), S("A1", "Zahl"), S("A1", "Paar2")}
 	default:
-		return []c20Spec{S("S0a"), S("S1", "Buchstabe"), S("S1", "Zahl"), S("S1", "Paar1"), S("S1", "Paar2"), S("S1", "PaarDef")}
+		return []c20Spec{S("S0a"), S("S1", "Buchstabe"), S("S1", "Zahl"), S("S1", "Paar1"), S("S1", "Paar2"), S("S1", "PaarDef"), S("A1", "Zahl")}
 	}
 }
 
